@@ -12,6 +12,9 @@ if TYPE_CHECKING:
 DEFAULT_WORK_START_HOUR = 9
 DEFAULT_WORK_END_HOUR = 17  # 5pm, so hours 9,10,11,12,13,14,15,16 are working (8 hours)
 
+# Tolerance (hours) when comparing accumulated effort with the requested effort
+EFFORT_EPSILON = 1e-9
+
 
 class TaskScenario(ScenarioData):
     def __init__(self, task: "PropertyTreeNode", scenarioIdx: int, attributes: dict[str, Any]) -> None:
@@ -729,7 +732,9 @@ class TaskScenario(ScenarioData):
             effort_before = self.doneEffort
             self.bookResources()
 
-            if self.doneEffort >= effort:
+            # Effort is accumulated in floating point; a task whose bookings add up to its
+            # effort must not take a further slot because of a rounding residue
+            if self.doneEffort >= effort - EFFORT_EPSILON:
                 # Finished - calculate precise end time within the final slot
                 # and release unused time for other tasks
                 end_date, _seconds_used = self._calculatePreciseEndTimeAndRelease(effort, effort_before, forward)
